@@ -233,6 +233,8 @@ class StringTheory:
         if isinstance(item, SStr):
             if not all(isinstance(v, str) for v in vals):
                 raise Untranslatable()
+            if len(vals) > 16:
+                return self.lift(item.term, DFA.from_words(A, vals))
             lang = DFA.empty(A)
             for v in vals:
                 lang = lang.union(DFA.literal(A, v))
